@@ -335,7 +335,10 @@ func (e *Engine) Run() (err error) {
 		st.assume(fmt.Sprintf("(> %s 0)", obj.T))
 		_ = i
 		fr.closure = append(fr.closure, obj)
-		fr.params[fv.Name()] = obj
+		if fr.freeVars == nil {
+			fr.freeVars = map[string]Val{}
+		}
+		fr.freeVars[fv.Name()] = obj // specs see the captured variable's value, not the pointer
 	}
 	// receiver is assumed non-nil for pointer-receiver methods
 	if fn.Signature.Recv() != nil && len(fn.Params) > 0 {
